@@ -188,6 +188,9 @@ func buildGen(c GenCase) (m modeling.Mesh, ok bool) {
 		return extrude.Line(lp), true
 	case "shape", "closedShape":
 		sh := []vector2.Float64{vector2.New(0., 0), vector2.New(1., 0), vector2.New(1., 1), vector2.New(0., 1), vector2.New(-0.5, 0.5)}[:clampI(I[0], 3, 5)]
+		if B[4] && len(p) >= 3 { // an explicitly closed polyline (GIS/CAD data, append(loop, loop[0])): last point == first point
+			p = append(p, p[0])
+		}
 		if c.Kind == "shape" {
 			if len(p) < 2 {
 				return m, false
@@ -311,7 +314,8 @@ func genChain(t *rapid.T) ChainCase {
 	for i := 0; i < ns; i++ {
 		c.Seeds = append(c.Seeds, gen.Mesh(t, gen.MeshOpts{MaxN: 7, MaxPrims: 5, NeedPos: rapid.IntRange(0, 3).Draw(t, "needpos") > 0, Materials: true, DupPos: true,
 			Attrs: []gen.AttrSpec{{Name: modeling.PositionAttribute, Arity: 3}, {Name: modeling.NormalAttribute, Arity: 3}, {Name: modeling.TexCoordAttribute, Arity: 2},
-				{Name: modeling.ColorAttribute, Arity: 3}, {Name: "w", Arity: 1}, {Name: modeling.RotationAttribute, Arity: 4}}}, fmt.Sprintf("s%d", i)))
+				{Name: modeling.ColorAttribute, Arity: 3}, {Name: "w", Arity: 1}, {Name: modeling.RotationAttribute, Arity: 4},
+				{Name: modeling.ColorAttribute, Arity: 4}, {Name: "w", Arity: 3}}}, fmt.Sprintf("s%d", i))) // the last two: a name in a second dimension
 	}
 	if rapid.IntRange(0, 3).Draw(t, "withPrim") == 0 {
 		c.Prim = []int{rapid.IntRange(0, 6).Draw(t, "prim")}
